@@ -12,7 +12,8 @@ Aliasing == {0, 1}
 
 Case(kind, a, b, c, n, al, z) ==
     [kind |-> kind, from |-> a, via |-> b, to |-> c, n |-> n,
-     alias |-> al, z0 |-> z, net |-> "-", mag |-> "unit"]
+     alias |-> al, z0 |-> z, net |-> "-", mag |-> "unit",
+     pat |-> "-", shape |-> "dense"]
 
 (* MAGNITUDE CLASSES.  The property quantifies over matrices and reference *)
 (* impedances of any size; a conversion must not depend on the units.      *)
@@ -32,12 +33,40 @@ VIFamily(t) == t \in MatrixTypes \ WaveTypes
 
 MCase(kind, a, b, c, n, m) ==
     [kind |-> kind, from |-> a, via |-> b, to |-> c, n |-> n,
-     alias |-> 0, z0 |-> "cplx", net |-> "-", mag |-> m]
+     alias |-> 0, z0 |-> "cplx", net |-> "-", mag |-> m,
+     pat |-> "-", shape |-> "dense"]
+
+(* EQUALITY PATTERN of the reference impedances (NetParams!Z0Patterns):     *)
+(* ports of one group share their z0; flavour of "share":                  *)
+(*   peq  one real value per group        pce  one complex value per group *)
+(*   pre  one real part per group, imaginary parts differing port by port  *)
+Z0Flavours == {"peq", "pce", "pre"}
+PCase(kind, a, c, n, fl, s) ==
+    [kind |-> kind, from |-> a, via |-> "-", to |-> c, n |-> n,
+     alias |-> 0, z0 |-> fl, net |-> "-", mag |-> "unit",
+     pat |-> PatString(s), shape |-> "dense"]
+
+(* zero pattern of the INPUT matrix (NetParams!Shapes), exact zeros *)
+ShCase(kind, a, c, n, al, sh) ==
+    [kind |-> kind, from |-> a, via |-> "-", to |-> c, n |-> n,
+     alias |-> al, z0 |-> "cplx", net |-> "-", mag |-> "unit",
+     pat |-> "-", shape |-> sh]
+
+Shapes2 == {"diag", "upper", "lower", "sym"}
+ShEx2 == [x \in MatrixTypes |-> [sh \in Shapes2 |-> [t \in MatrixTypes |->
+             ShapedExists(x, sh, 2, t)]]]
+ShZx2 == [x \in MatrixTypes |-> [sh \in Shapes2 |-> ShapedZinExists(x, sh, 2)]]
+ShExN == [x \in NPortTypes |-> [sh \in Shapes |-> [n \in 2..4 |->
+             [t \in NPortTypes |->
+                 ShapeProper(sh, n) /\ ShapedExists(x, sh, n, t)]]]]
+ShZxN == [x \in NPortTypes |-> [sh \in Shapes |-> [n \in 2..4 |->
+             ShapeProper(sh, n) /\ ShapedZinExists(x, sh, n)]]]
 
 (* a conversion applied to a structured network for which both ends exist *)
 SCase(kind, net, a, c, n, al, z) ==
     [kind |-> kind, from |-> a, via |-> "-", to |-> c, n |-> n,
-     alias |-> al, z0 |-> z, net |-> net, mag |-> "unit"]
+     alias |-> al, z0 |-> z, net |-> net, mag |-> "unit",
+     pat |-> "-", shape |-> "dense"]
 
 DPairs(S, T) == {p \in S \X T : p[1] # p[2]}
 DTriples(S, T, U) ==
@@ -140,6 +169,46 @@ CaseSet ==
       {MCase("zin2", a, "-", "ZIN", 2, m) : a \in MatrixTypes, m \in Z0MagClasses}
       \cup
       {MCase("zinn", a, "-", "ZIN", n, m) :
-         a \in NPortTypes, n \in 1..MaxN, m \in Z0MagClasses})
+         a \in NPortTypes, n \in 1..MaxN, m \in Z0MagClasses}
+      \cup
+      (* equality patterns of z0: every function that takes z0 (two ports:  *)
+      (* equal / unequal, real / complex are the z0 classes above; only the *)
+      (* "equal real parts, different imaginary parts" flavour is new)      *)
+      UNION {{PCase("convn", p[1], p[2], n, fl, s) :
+                p \in {q \in DPairs(NPortTypes, NPortTypes) : NeedsZ0(q[1], q[2])},
+                fl \in Z0Flavours, s \in Z0Patterns(n)} : n \in 1..MaxN}
+      \cup
+      UNION {{PCase("zinn", a, "ZIN", n, fl, s) :
+                a \in NPortTypes, fl \in Z0Flavours, s \in Z0Patterns(n)} :
+             n \in 1..MaxN}
+      \cup
+      {PCase("conv2", p[1], p[2], 2, fl, s) :
+         p \in {q \in DPairs(MatrixTypes, MatrixTypes) : NeedsZ0(q[1], q[2])},
+         fl \in {"pre"}, s \in Z0Patterns(2)}
+      \cup
+      {PCase("zin2", a, "ZIN", 2, fl, s) :
+         a \in MatrixTypes, fl \in {"pre"}, s \in Z0Patterns(2)}
+      \cup
+      (* zero patterns of the input matrix, where both ends exist for them *)
+      {k \in {ShCase("conv2", p[1], p[2], 2, 0, sh) :
+                p \in DPairs(MatrixTypes, MatrixTypes), sh \in Shapes2} :
+         ShEx2[k.from][k.shape][k.to]}
+      \cup
+      {k \in {ShCase("zin2", a, "ZIN", 2, 0, sh) : a \in MatrixTypes, sh \in Shapes2} :
+         ShZx2[k.from][k.shape]}
+      \cup
+      {k \in {ShCase("convn", p[1], p[2], n, al, sh) :
+                p \in DPairs(NPortTypes, NPortTypes), n \in 2..4,
+                al \in Aliasing, sh \in Shapes} :
+         ShExN[k.from][k.shape][k.n][k.to]}
+      \cup
+      {k \in {ShCase("zinn", a, "ZIN", n, al, sh) :
+                a \in NPortTypes, n \in 2..4, al \in Aliasing, sh \in Shapes} :
+         ShZxN[k.from][k.shape][k.n]}
+      \cup
+      (* n-port against two-port, and the round trip, on the shaped inputs *)
+      {k \in {ShCase("nvs2", p[1], p[2], 2, 0, sh) :
+                p \in DPairs(NPortTypes, NPortTypes), sh \in Shapes2} :
+         ShEx2[k.from][k.shape][k.to]})
 
 =============================================================================
